@@ -333,6 +333,12 @@ def repeat(a, n, axis=None):
     return SymArray(_np.repeat(a.vals, n, axis=axis), a.dtype)
 
 
+@sym_or_real("resize")
+def resize(a, new_shape):
+    a = asanyarray(a)
+    return SymArray(_np.resize(a.vals, _shape(new_shape)), a.dtype)
+
+
 @sym_or_real("tile")
 def tile(a, reps):
     a = asanyarray(a)
@@ -748,9 +754,13 @@ def bincount(x, weights=None, minlength=0):
     x = asanyarray(x)
     if x.size == 0:
         return wrap_real(_np.bincount(_np.zeros(0, dtype=int), minlength=minlength))
-    m = max(x)
-    m = int(m)   # shape-determining: fork on the maximum
-    size = _b.max(m + 1, int(minlength))
+    his = [core._bnd(v)[1] for v in x.vals.ravel()]
+    if int(minlength) > 0 and _b.all(h is not None and h < int(minlength) for h in his):
+        size = int(minlength)            # the result length does not depend on the data
+    else:
+        m = max(x)
+        m = int(m)   # shape-determining: fork on the maximum
+        size = _b.max(m + 1, int(minlength))
     w = obj(weights) if weights is not None else None
     out = _np.empty(size, dtype=object)
     for c in range(size):
